@@ -84,3 +84,243 @@ theorem refresh_keeps_listed (listing : List (String × List String)) (answered 
     · simp only [ha]; exact h1
 
 end Burrow.Notifier
+
+namespace Burrow.Notifier
+
+/-- adding fresh records for the groups of a cluster creates a record for each of them -/
+theorem lookupG_addFresh_mem (c : String) : ∀ (gs : List String) (a : NState) (g : String),
+    (g ∈ gs ∨ (lookupG (c, g) a).isSome) →
+    (lookupG (c, g) (gs.foldl (fun a g' =>
+        match lookupG (c, g') a with
+        | some _ => a
+        | none => a ++ [((c, g'), GroupRec.fresh)]) a)).isSome := by
+  intro gs
+  induction gs with
+  | nil => intro a g h; rcases h with h | h; simp at h; simpa using h
+  | cons g0 rest ih =>
+    intro a g h
+    simp only [List.foldl_cons]
+    apply ih
+    by_cases hg : g = g0
+    · subst hg
+      right
+      cases hl : lookupG (c, g) a with
+      | some _ => simp [hl]
+      | none =>
+        simp only
+        have : ∀ (l : NState), lookupG (c, g) (l ++ [((c, g), GroupRec.fresh)]) = some GroupRec.fresh ∨
+            (lookupG (c, g) (l ++ [((c, g), GroupRec.fresh)])).isSome := by
+          intro l
+          induction l with
+          | nil => left; simp [lookupG]
+          | cons kv r ihl =>
+            obtain ⟨k2, v2⟩ := kv
+            by_cases h2 : k2 = (c, g)
+            · right; simp [lookupG, h2]
+            · rcases ihl with h' | h'
+              · left; simp [lookupG, h2, h']
+              · right; simp [lookupG, h2, h']
+        rcases this a with h' | h'
+        · simp [h']
+        · exact h'
+    · rcases h with h | h
+      · left
+        simp only [List.mem_cons] at h
+        rcases h with h | h
+        · exact absurd h hg
+        · exact h
+      · right
+        cases hl : lookupG (c, g0) a with
+        | some _ => simpa [hl] using h
+        | none =>
+          simp only
+          rw [lookupG_append_other _ (by intro e; cases e; exact hg rfl)]
+          exact h
+
+end Burrow.Notifier
+
+namespace Burrow.Notifier
+
+/-- one cluster's part of the refresh -/
+def refreshStep (answered : String → Bool) (acc : NState) (cg : String × List String) : NState :=
+  if answered cg.1 then
+    let kept := acc.filter fun kv => kv.1.1 != cg.1 || cg.2.contains kv.1.2
+    cg.2.foldl (fun a g =>
+      match lookupG (cg.1, g) a with
+      | some _ => a
+      | none => a ++ [((cg.1, g), GroupRec.fresh)]) kept
+  else acc
+
+theorem refresh_eq_foldl (listing : List (String × List String)) (answered : String → Bool) (s : NState) :
+    refresh listing answered s =
+      listing.foldl (refreshStep answered) (s.filter fun kv => listing.any (·.1 == kv.1.1)) := rfl
+
+/-- the other clusters' parts leave a record alone -/
+theorem refreshStep_other (answered : String → Bool) (c g : String) (cg : String × List String) (hne : cg.1 ≠ c)
+    (a : NState) (h : (lookupG (c, g) a).isSome) : (lookupG (c, g) (refreshStep answered a cg)).isSome := by
+  unfold refreshStep
+  by_cases ha : answered cg.1 = true
+  · simp only [ha, if_true]
+    obtain ⟨r, hr⟩ := Option.isSome_iff_exists.mp h
+    have : lookupG (c, g) (a.filter fun kv => kv.1.1 != cg.1 || cg.2.contains kv.1.2) = some r := by
+      rw [lookupG_filter (k := (c, g))]
+      · exact hr
+      · intro v
+        have : (c != cg.1) = true := by simpa using fun e => hne e.symm
+        simp [this]
+    rw [lookupG_addFresh cg.1 cg.2 _ this]; rfl
+  · simp only [ha]; exact h
+
+theorem foldl_refreshStep_other (answered : String → Bool) (c g : String) :
+    ∀ (rest : List (String × List String)) (a : NState), (∀ cg ∈ rest, cg.1 ≠ c) →
+      (lookupG (c, g) a).isSome → (lookupG (c, g) (rest.foldl (refreshStep answered) a)).isSome := by
+  intro rest
+  induction rest with
+  | nil => intro a _ h; exact h
+  | cons cg rest ih =>
+    intro a hne h
+    simp only [List.foldl_cons]
+    exact ih _ (fun cg' h' => hne cg' (List.mem_cons_of_mem _ h'))
+      (refreshStep_other answered c g cg (hne cg (by simp)) a h)
+
+/-- **a refresh whose consumer-list request for a cluster was answered has a record for every group in
+    the answer** (cluster names in storage's listing are distinct: they are the keys of a map) -/
+theorem refresh_adds_listed (listing : List (String × List String)) (answered : String → Bool) (s : NState)
+    (c g : String) (gs : List String)
+    (hnd : (listing.map (·.1)).Nodup) (hc : (c, gs) ∈ listing) (ha : answered c = true) (hg : g ∈ gs) :
+    (lookupG (c, g) (refresh listing answered s)).isSome := by
+  rw [refresh_eq_foldl]
+  generalize (s.filter fun kv => listing.any (·.1 == kv.1.1)) = s1
+  induction listing generalizing s1 with
+  | nil => cases hc
+  | cons cg rest ih =>
+    simp only [List.foldl_cons]
+    simp only [List.map_cons, List.nodup_cons] at hnd
+    rcases List.mem_cons.mp hc with hc | hc
+    · subst hc
+      apply foldl_refreshStep_other
+      · intro cg' hcg' e
+        exact hnd.1 (List.mem_map.mpr ⟨cg', hcg', e⟩)
+      · unfold refreshStep
+        simp only [ha, if_true]
+        exact lookupG_addFresh_mem c gs _ g (Or.inl hg)
+    · exact ih hnd.2 hc _
+
+end Burrow.Notifier
+
+namespace Burrow.Notifier
+
+theorem lookupG_filter_none {p : (String × String) × GroupRec → Bool} {k : String × String} :
+    ∀ (l : NState), lookupG k l = none → lookupG k (l.filter p) = none := by
+  intro l
+  induction l with
+  | nil => intro _; rfl
+  | cons kv rest ih =>
+    obtain ⟨k', v'⟩ := kv
+    intro h
+    by_cases hk : k' = k
+    · simp [lookupG, hk] at h
+    · have hr : lookupG k rest = none := by simpa [lookupG, hk] using h
+      by_cases hf : p (k', v') = true
+      · simp [List.filter_cons, hf, lookupG, hk, ih hr]
+      · simp [List.filter_cons, hf, ih hr]
+
+theorem lookupG_filter_out {p : (String × String) × GroupRec → Bool} {k : String × String}
+    (hp : ∀ v, p (k, v) = false) : ∀ (l : NState), lookupG k (l.filter p) = none := by
+  intro l
+  induction l with
+  | nil => rfl
+  | cons kv rest ih =>
+    obtain ⟨k', v'⟩ := kv
+    by_cases hk : k' = k
+    · subst hk; simp [List.filter_cons, hp, ih]
+    · by_cases hf : p (k', v') = true
+      · simp [List.filter_cons, hf, lookupG, hk, ih]
+      · simp [List.filter_cons, hf, ih]
+
+theorem lookupG_addFresh_none {k : String × String} (c : String) :
+    ∀ (gs : List String) (a : NState), (∀ g ∈ gs, (c, g) ≠ k) → lookupG k a = none →
+      lookupG k (gs.foldl (fun a g =>
+        match lookupG (c, g) a with
+        | some _ => a
+        | none => a ++ [((c, g), GroupRec.fresh)]) a) = none := by
+  intro gs
+  induction gs with
+  | nil => intro a _ h; exact h
+  | cons g rest ih =>
+    intro a hne h
+    simp only [List.foldl_cons]
+    apply ih _ (fun g' hg' => hne g' (List.mem_cons_of_mem _ hg'))
+    cases hl : lookupG (c, g) a with
+    | some _ => exact h
+    | none =>
+      simp only
+      rw [lookupG_append_other _ (hne g (by simp))]; exact h
+
+theorem refreshStep_none (answered : String → Bool) (k : String × String) (cg : String × List String)
+    (hk : cg.1 = k.1 → k.2 ∉ cg.2) (a : NState) (h : lookupG k a = none) :
+    lookupG k (refreshStep answered a cg) = none := by
+  unfold refreshStep
+  by_cases ha : answered cg.1 = true
+  · simp only [ha, if_true]
+    apply lookupG_addFresh_none
+    · intro g hg e
+      subst e
+      exact hk rfl hg
+    · exact lookupG_filter_none _ h
+  · simp only [ha]; exact h
+
+theorem foldl_refreshStep_none (answered : String → Bool) (k : String × String) :
+    ∀ (rest : List (String × List String)) (a : NState), (∀ cg ∈ rest, cg.1 = k.1 → k.2 ∉ cg.2) →
+      lookupG k a = none → lookupG k (rest.foldl (refreshStep answered) a) = none := by
+  intro rest
+  induction rest with
+  | nil => intro a _ h; exact h
+  | cons cg rest ih =>
+    intro a hk h
+    simp only [List.foldl_cons]
+    exact ih _ (fun cg' h' => hk cg' (List.mem_cons_of_mem _ h'))
+      (refreshStep_none answered k cg (hk cg (by simp)) a h)
+
+/-- **a refresh drops the record of every group of a cluster that storage no longer lists** -/
+theorem refresh_drops_unlisted_cluster (listing : List (String × List String)) (answered : String → Bool)
+    (s : NState) (k : String × String) (hc : ∀ cg ∈ listing, cg.1 ≠ k.1) :
+    lookupG k (refresh listing answered s) = none := by
+  rw [refresh_eq_foldl]
+  apply foldl_refreshStep_none
+  · intro cg hcg e; exact absurd e (hc cg hcg)
+  · apply lookupG_filter_out
+    intro v
+    simp only [List.any_eq_false, beq_iff_eq]
+    intro cg hcg; exact hc cg hcg
+
+/-- **… and, when the cluster's consumer-list request was answered, of every group that is not in the
+    answer** (that is how a deleted or expired group stops being evaluated) -/
+theorem refresh_drops_unlisted_group (listing : List (String × List String)) (answered : String → Bool)
+    (s : NState) (k : String × String) (gs : List String)
+    (hnd : (listing.map (·.1)).Nodup) (hc : (k.1, gs) ∈ listing) (ha : answered k.1 = true) (hg : k.2 ∉ gs) :
+    lookupG k (refresh listing answered s) = none := by
+  rw [refresh_eq_foldl]
+  generalize (s.filter fun kv => listing.any (·.1 == kv.1.1)) = s1
+  induction listing generalizing s1 with
+  | nil => cases hc
+  | cons cg rest ih =>
+    simp only [List.foldl_cons]
+    simp only [List.map_cons, List.nodup_cons] at hnd
+    rcases List.mem_cons.mp hc with hc | hc
+    · subst hc
+      apply foldl_refreshStep_none
+      · intro cg' hcg' e
+        exact absurd (List.mem_map.mpr ⟨cg', hcg', e⟩) hnd.1
+      · unfold refreshStep
+        simp only [ha, if_true]
+        apply lookupG_addFresh_none
+        · intro g hg' e
+          have : g = k.2 := by rw [← e]
+          exact hg (this ▸ hg')
+        · apply lookupG_filter_out
+          intro v
+          simp [hg]
+    · exact ih hnd.2 hc _
+
+end Burrow.Notifier
